@@ -19,6 +19,8 @@ CHECKS = {
                 text="Bounded symbolic check that the loader returns only supported builtin values or raises DataFormatError/EOFError for all byte strings / operand values / single-byte mutations / strict prefixes inside the bounds."),
     "C19": dict(cat="other", ref="DESIGN.md §4 C19", technique="CrossHair symbolic execution of ChannelFileRead.read/readline and ChannelFileWrite against a reference file; symbolic item contents and read sizes, enumerated item counts and op sequences",
                 text="Bounded differential symbolic check of the real channel-file classes against a position+slice reference file."),
+    "C20": dict(cat="other", ref="DESIGN.md §4 C20", technique="CrossHair symbolic execution of XSpec parsing/printing/equality and Group registration/lookup/allocate_id with symbolic values and ids",
+                text="Bounded symbolic check of spec parsing (catalogue keys x symbolic values, duplicates of either kind) and of the group container/id-allocation code (symbolic ids); the concurrent-allocation part of the statement is outside this check."),
 }
 
 NOT_APPLICABLE = [
